@@ -5,6 +5,7 @@ so that the library's metrics code runs.  Every case uses its own executor name.
 Histories over single layers (exact per-layer equalities) and stacks (conservation:
 all gauges back to zero, never negative), in virtual time over a manual delegate."""
 import random
+import concurrent.futures as cf
 import itertools
 
 from .. import instr, harness, stacks
@@ -60,6 +61,9 @@ def cases(tier, seed):
     for layer in ("retry", "throttle", "poll", "timeout", "map"):
         for op in ("submit", "complete", "cancel", "fail"):
             out.append({"name": "metrics.sweep/%s/%s" % (layer, op), "kind": "sweep", "layer": layer, "op": op, "cap": cap})
+            # ... and with a second client operation at the placement instead of just letting the workers run
+            for op2 in ("submit", "complete", "cancel", "fail"):
+                out.append({"name": "metrics.sweep/%s/%s|%s" % (layer, op, op2), "kind": "sweep", "layer": layer, "op": op, "op2": op2, "cap": cap})
     out.append({"name": "metrics.sweep-worker/timeout", "kind": "wsweep", "cap": 40 if tier == "quick" else None})
     for layer in ("map", "retry", "poll", "throttle", "timeout", "cos", "flat_map"):
         out.append({"name": "metrics.double-shutdown/%s" % layer, "kind": "dblsd", "layer": layer, "cap": 30 if tier == "quick" else None})
@@ -104,6 +108,8 @@ class MW(object):
             ctx.own(cur)
         self.top = cur
         self.futs = []  # records
+        self.id_lock = instr._RealLock()
+        self.next_id = 0
         self.shut = False
         self.retries = 0
         self.timeouts = 0
@@ -125,12 +131,15 @@ class MW(object):
             if fail:
                 raise UserErrorA("job")
             return 1
-        job.vf_id = "job%d" % len(self.futs)
+        with self.id_lock:
+            jid = self.next_id
+            self.next_id += 1
+        job.vf_id = "job%d" % jid
         try:
             f = self.top.submit(job)
         except RuntimeError:
             return None
-        rec = {"f": f, "id": len(self.futs)}
+        rec = {"f": f, "id": jid}
         self.futs.append(rec)
         return rec
 
@@ -217,10 +226,19 @@ def do_step(w, rng, op):
         p = w.items_pending()
         if p:
             me.run(rng.choice(p))
+    elif op == "complete_last":
+        p = w.items_pending()
+        if p:
+            me.run(p[-1])
     elif op == "fail":
         p = w.items_pending()
         if p:
             me.fail(rng.choice(p), UserErrorA("attempt"))
+    elif op == "fail_cancelled_error":
+        # the work *fails* with a CancelledError instance (e.g. it waited for a cancelled future of its own): a failure
+        p = w.items_pending()
+        if p:
+            me.fail(rng.choice(p), cf.CancelledError("raised by the job"))
     elif op == "cancel":
         cands = [r for r in w.futs if not r["f"].done()]
         if cands:
@@ -258,7 +276,7 @@ def run_hist(case, res, layers=None):
         w = MW(ctx, layers, case["idx"])
         label = case["name"] + "(" + w.name + ")"
         sig = []
-        ops = ["submit", "submit", "submit", "complete", "complete", "fail", "cancel", "cancel_inner", "wait"]
+        ops = ["submit", "submit", "submit", "complete", "complete", "fail", "cancel", "cancel_inner", "wait", "fail_cancelled_error"]
         if "poll" in layers:
             ops.append("poll_raise")
         if layers == ["sync"]:
@@ -329,6 +347,11 @@ class MScenario(object):
         return ctx.actor("V", do_step, ctx.w, rng, self.case["op"]).go()
 
     def intervene(self, ctx):
+        op2 = self.case.get("op2")
+        if op2:
+            # a submit() suspended after the delegate accepted the callable has an item the second actor can end
+            do_step(ctx.w, random.Random(2), op2 if op2 != "complete" else "complete_last")
+            return
         me = ctx.actors[-1]
         me.external = True
         # let the worker threads run while the client operation is suspended
